@@ -486,7 +486,7 @@ impl<E: Elem> Interp<E> {
         let logged_op = match op {
             "builder_abandon" | "intrusive_abandon" => "generate",
             "builder_extend" | "intrusive_extend" => "builder_extend",
-            "consumer_abandon" | "zipx_plain_out" => "fold",
+            "consumer_abandon" | "zipx_plain_out" | "map_plain_out" => "fold",
             "iter_for_each" => "iter_fold",
             x => x,
         };
@@ -988,7 +988,13 @@ fn exec<E: Elem>(op: &str, vals: &mut Vec<Val<E>>, forms: &[String], arg: i64, m
         "zipx_plain_out" => {
             let left = js(st, "side") != "r";
             let mut o = Outcome::new();
-            o.res = with_arr!(take(vals, 0), a => zipx_plain_out(a, left, ctx), bad());
+            let pform = { let p = js(st, "pform"); if p.is_empty() { "own".to_string() } else { p.to_string() } };
+            o.res = with_arr!(take(vals, 0), a => zipx_plain_out(a, left, &pform, ctx), bad());
+            o
+        }
+        "map_plain_out" => {
+            let mut o = Outcome::new();
+            o.res = with_arr!(take(vals, 0), a => map_plain_out(a, ctx), bad());
             o
         }
         "zip" => {
@@ -1164,16 +1170,36 @@ impl<'a, E: Elem> std::fmt::Debug for DbgRef<'a, E> {
     }
 }
 
-fn zipx_plain_out<E: Elem, N: generic_array::ArrayLength>(a: GenericArray<E, N>, left: bool, ctx: &CbCtx) -> i64 {
-    // tracked x plain -> plain: neither the other operand nor the OUTPUT has drop glue
-    let p: GenericArray<u64, N> = GenericArray::generate(|i| i as u64);
+fn zipx_plain_out<E: Elem, N: generic_array::ArrayLength>(a: GenericArray<E, N>, left: bool, pform: &str, ctx: &CbCtx) -> i64 {
+    // tracked x plain -> plain: neither the other operand nor the OUTPUT has drop glue; the plain operand owned,
+    // by shared or by mutable reference (each form selects another zip / inverted_zip / inverted_zip2 body)
+    let mut p: GenericArray<u64, N> = GenericArray::generate(|i| i as u64);
     let acc = Cell::new(0i64);
-    let f = |x: E, _v: u64| -> u64 {
+    let f = |x: E| -> u64 {
         let r = ctx.fold::<E, E>(acc.get(), x);
         acc.set(r);
         r as u64
     };
-    let out: GenericArray<u64, N> = if left { a.zip(p, |x, v| f(x, v)) } else { p.zip(a, |v, x| f(x, v)) };
+    let out: GenericArray<u64, N> = match (left, pform) {
+        (true, "own") => a.zip(p, |x, _v| f(x)),
+        (true, "ref") => a.zip(&p, |x, _v| f(x)),
+        (true, _) => a.zip(&mut p, |x, _v| f(x)),
+        (false, "own") => p.zip(a, |_v, x| f(x)),
+        (false, "ref") => (&p).zip(a, |_v, x| f(x)),
+        (false, _) => (&mut p).zip(a, |_v, x| f(x)),
+    };
+    drop(out);
+    acc.get()
+}
+
+fn map_plain_out<E: Elem, N: generic_array::ArrayLength>(a: GenericArray<E, N>, ctx: &CbCtx) -> i64 {
+    // tracked -> plain: the OUTPUT element type has no drop glue, the source's has
+    let acc = Cell::new(0i64);
+    let out: GenericArray<u64, N> = a.map(|x| {
+        let r = ctx.fold::<E, E>(acc.get(), x);
+        acc.set(r);
+        r as u64
+    });
     drop(out);
     acc.get()
 }
